@@ -51,7 +51,10 @@ def jobs(ctx):
 def run(ctx):
   cacheh.run_jobs(ctx, jobs(ctx), 'C10', required=('store_overlaps_drain', 'nonempty_drain', 'refused_store'))
   cacheseq.run(ctx, oracles=('c02', 'c10'), depth=ctx.pick(6, 8), strategies=STRATEGIES,
-               max_cache=ctx.pick([1, 2, 3, 4], [1, 2, 3, 4, 5, 6]), flows=(False, True))
+               max_cache=ctx.pick([1, 2, 3, 4], [1, 2, 3, 4, 5, 6]), flows=(False, True),
+               # the third series is tagged and always sent in a NON-canonical spelling (it is cached under the canonical
+               # one): an update of one of its cached timestamps must be recognised as such also while the cache is full
+               metrics=('m', 'n', 'o;b=1;a=2'))
   ctx.add(bounds={'max_cache': ctx.pick([1, 2, 3, 4], [1, 2, 3, 4, 5, 6]), 'preemptions': ctx.pick(2, 3),
                   'sequential_depth': ctx.pick(6, 8)})
   ctx.assumptions += ['hard limit = ceil(MAX_CACHE_SIZE * 1.05) with flow control, MAX_CACHE_SIZE without']
